@@ -165,6 +165,15 @@ func checkStaleCopies(p *load.Program, rule *report.Rule, pkgs []string) map[str
 					continue
 				}
 				for _, r := range e.reads {
+					rewritten := false
+					for _, w := range e.writes {
+						if w == r {
+							rewritten = true // a callee that also writes the copy may re-derive it before reading (extracted step helper)
+						}
+					}
+					if rewritten {
+						continue
+					}
 					if st.stale[r] && !reported[ins] {
 						reported[ins] = true
 						if bad == "" {
